@@ -25,9 +25,11 @@ const (
 	oPanic    = "panic"
 	oUnrouted = "unrouted"
 	oCritical = "critical-extension"
+	// a Discover Versions item: answered by the executor itself (no user handler), successful
+	oDiscover = "discover-versions"
 )
 
-var outcomes = []string{oSuccess, oTyped, oPlain, oPanic, oUnrouted, oCritical}
+var outcomes = []string{oSuccess, oTyped, oPlain, oPanic, oUnrouted, oCritical, oDiscover}
 
 type c09Case struct {
 	Outcomes []string `json:"item_outcomes"`
@@ -110,6 +112,9 @@ func buildRequest(c c09Case) *kmip.RequestMessage {
 			it.RequestPayload = &payloads.DestroyRequestPayload{UniqueIdentifier: fmt.Sprintf("%d:%s", i, o)}
 		case oCritical:
 			it.MessageExtension = &kmip.MessageExtension{VendorIdentification: "v", CriticalityIndicator: true}
+		case oDiscover:
+			it.Operation = kmip.OperationDiscoverVersions
+			it.RequestPayload = &payloads.DiscoverVersionsRequestPayload{}
 		}
 		if c.IDs == "all" || (c.IDs == "some" && i%2 == 0) {
 			it.UniqueBatchItemID = []byte{0xB0, byte(i)}
@@ -239,14 +244,19 @@ func c09Run(c c09Case) (sig string, err error) {
 		if invoked {
 			wantCalls = append(wantCalls, i)
 		}
-		ok := o == oSuccess
+		ok := o == oSuccess || o == oDiscover
 		if ok != (it.ResultStatus == kmip.ResultStatusSuccess) {
 			return "wrong-status:" + o, fmt.Errorf("item %d with outcome %s has status %v", i, o, it.ResultStatus)
 		}
 		if !ok && it.ResultStatus != kmip.ResultStatusOperationFailed {
 			return "wrong-status:" + o, fmt.Errorf("item %d with outcome %s has status %v", i, o, it.ResultStatus)
 		}
-		if ok {
+		if o == oDiscover {
+			// (the executor answers with a value of the request payload's Go type, which has the same wire form: not this property's business)
+			if it.ResponsePayload == nil || it.ResponsePayload.Operation() != kmip.OperationDiscoverVersions {
+				return "wrong-payload", fmt.Errorf("item %d (Discover Versions) carries payload %#v", i, it.ResponsePayload)
+			}
+		} else if ok {
 			pl, isAct := it.ResponsePayload.(*payloads.ActivateResponsePayload)
 			if !isAct || pl.UniqueIdentifier != fmt.Sprintf("%d:%s", i, o) {
 				return "wrong-payload", fmt.Errorf("item %d carries payload %#v", i, it.ResponsePayload)
@@ -281,7 +291,7 @@ var c09Sets = [][]string{{"1.4", "1.2"}, {"1.2"}, {"1.0", "1.3"}, {"1.1", "1.2",
 
 func TestC09Exhaustive(t *testing.T) {
 	const name = "TestC09Exhaustive"
-	rec := evid.New("C09", name, "all batches of length 0..3 over the six item outcomes x option {unset, Continue, Stop, Undo} x version {each of 1.0..1.4 on a default executor, unsupported 0.9/1.5/2.0/3.1, inside/outside one of six restricted sets; in a third of the cases another executor was given a restricted set just before; in a quarter one or two DiscoverVersions requests with partial version lists were served before, by this or another default executor} x batch count offset {-1,0,+1} x ids {none, all, some}, "+
+	rec := evid.New("C09", name, "all batches of length 0..3 over the seven item outcomes (incl. a Discover Versions item answered by the executor itself) x option {unset, Continue, Stop, Undo} x version {each of 1.0..1.4 on a default executor, unsupported 0.9/1.5/2.0/3.1, inside/outside one of six restricted sets; in a third of the cases another executor was given a restricted set just before; in a quarter one or two DiscoverVersions requests with partial version lists were served before, by this or another default executor} x batch count offset {-1,0,+1} x ids {none, all, some}, "+
 		"each executed once against a fresh BatchExecutor and compared with the executable model of the KMIP batch semantics; non-trivial = >= 2 items with a failing item that is not last, or a rejected request with >= 1 item; distinct by case").Attach(t)
 	rec.Exhaustive(true)
 	if rp := evid.LoadReplay(name); rp != nil {
